@@ -772,8 +772,8 @@ class WCS(object):
         """
 
         # Order of polynomial
-        sx, sy = self.distort["a"].shape
-        porder = sx - 1
+        # (the two axes can have different orders: A_ORDER != B_ORDER)
+        porder = max(self.distort["a"].shape[0], self.distort["b"].shape[0]) - 1
 
         ng = 2 * (porder + 2)
         ng *= fac
